@@ -42,6 +42,8 @@ CONSTANTS
   PopAny,      \* FALSE: create_sessions pops the newest entry (as the code); TRUE: any entry (conformance only needs membership)
   OverrideC2,  \* cluster-level override of cluster "c2" (MC instance)
   Deviations,  \* open known findings modelled as the code behaves (none so far)
+  Script,      \* generator steering: <<>> or the sequence of step names a generated behaviour must follow
+               \* (the arguments and the predicted states remain the spec's)
   Gen,         \* "off" | "hist": keep a history, print one REPLAY line per behaviour of length Depth
                \*       | "last": remember the last SessionManager-level step, print one REPLAY line per transition
   Depth
@@ -112,7 +114,9 @@ PostProj == ProjOf(nb', canAccept', slab', perIpLimit', perIp', tracks')
 \* steps that call into (or change what is visible through) the SessionManager object
 ObjectOps == {"CheckLimits", "CreateOk", "Incr", "Track", "Link", "Unlink", "Close", "SetPerIpLimit"}
 Rec(r) ==
-  CASE Gen = "hist" -> Len(hist) < Depth /\ hist' = Append(hist, [step |-> r, post |-> PostProj])
+  CASE Gen = "hist" -> /\ Len(hist) < Depth
+                       /\ Script # <<>> => r.op = Script[Len(hist) + 1]
+                       /\ hist' = Append(hist, [step |-> r, post |-> PostProj])
     [] Gen = "last" -> hist' = IF r.op \in ObjectOps
                               THEN <<[pre |-> PreProj, step |-> r, post |-> PostProj,
                                       frees |-> IF r.op = "Close" THEN Cardinality(slab) - Cardinality(slab') ELSE 0]>>
